@@ -250,16 +250,42 @@ func init() {
 						r.Check(v != 0, name+"/nonzero-on-error#"+itoa(i), ret.Pos(), "return under %s yields %d", why, v)
 					}
 				}
-				rets := fi.returnsOf()
-				last := rets[len(rets)-1]
-				okS := false
-				for _, g := range fi.Guards(last) {
-					if v := fi.varOf(g.Expr); v != nil && fi.isFlag(v, true) && !g.Neg {
-						okS = true
+				// every return of status 0 is dominated by success (there is one; it may be written as the fall-through
+				// after `if !success {…; return failure}` or as `if success {return 0}` before the failure exit)
+				zeros, okS := 0, true
+				var zeroPos token.Pos = fi.Decl.Pos()
+				for _, ret := range fi.returnsOf() {
+					v, ok := fi.constInt(ret.Results[0])
+					if !ok || v != 0 {
+						continue
+					}
+					// … once the flag exists (nothing was attempted before it is declared: `if len(outs) == 0 {return 0}`)
+					inScope := false
+					for v2 := range fi.defs {
+						if fi.isFlag(v2, true) {
+							for _, d := range fi.defs[v2] {
+								if fi.precedes(d.node, ret) {
+									inScope = true
+								}
+							}
+						}
+					}
+					if !inScope {
+						continue
+					}
+					zeros++
+					zeroPos = ret.Pos()
+					dom := false
+					for _, g := range fi.Guards(ret) {
+						if v := fi.varOf(g.Expr); v != nil && fi.isFlag(v, true) && !g.Neg {
+							dom = true
+						}
+					}
+					if !dom {
+						okS = false
 					}
 				}
-				v, _ := fi.constInt(last.Results[0])
-				r.Check(okS && v == 0, name+"/zero-requires-success", last.Pos(), "the final status 0 is dominated by success")
+				r.Check(okS && zeros > 0, name+"/zero-requires-success", zeroPos, "the final status 0 is dominated by success")
 			}
 			for _, name := range []string{"checkCmd.Execute", "showCmd.Execute"} {
 				fi := r.Need(c.Fn(c.Cmd, name), name)
@@ -892,7 +918,7 @@ func init() {
 						}
 					}
 					// later stage calls of the same loop body (by position)
-					laterStages := func(after token.Pos, except ast.Node) int {
+					laterStages := func(after int, except ast.Node) int {
 						k := 0
 						for _, c3 := range fi.callsDeep(fi.Decl.Body) {
 							n3 := fi.calleeName(c3)
@@ -902,7 +928,7 @@ func init() {
 									st = true
 								}
 							}
-							if st && c3.Pos() > after && fi.enclosingLoop(c3) == fi.enclosingLoop(cl) && (except == nil || !fi.within(c3, except)) {
+							if st && startOf(c3) >= after && fi.enclosingLoop(c3) == fi.enclosingLoop(cl) && (except == nil || !fi.within(c3, except)) {
 								k++
 							}
 						}
@@ -910,7 +936,7 @@ func init() {
 					}
 					if is == nil {
 						// `ec.add(stage(…)...)`: whatever it returns is recorded; fine when no stage follows
-						if par, ok := fi.parent[ast.Node(cl)].(*ast.CallExpr); ok && fi.calleeName(par) == fnECAdd && par.Ellipsis.IsValid() && laterStages(cl.End(), nil) == 0 {
+						if par, ok := fi.parent[ast.Node(cl)].(*ast.CallExpr); ok && fi.calleeName(par) == fnECAdd && par.Ellipsis.IsValid() && laterStages(endOf(cl), nil) == 0 {
 							r.Ok(name+"/stage:"+short, cl.Pos(), "the errors of the last stage %s are recorded directly", short)
 							continue
 						}
@@ -925,7 +951,7 @@ func init() {
 					}
 					// "skips": the failing branch ends the iteration, or every later stage sits in the else branch
 					skips := terminates(is.Body)
-					if !skips && is.Else != nil && laterStages(is.Body.End(), is.Else) == 0 {
+					if !skips && is.Else != nil && laterStages(endOf(is.Body), is.Else) == 0 {
 						skips = true
 					}
 					r.Check(added && skips, name+"/stage:"+short, is.Pos(), "a failing %s records its errors and skips to the next function", short)
